@@ -130,6 +130,26 @@ def fmt_cards(cs):
     return [P.card_name(c) for c in cs]
 
 
+DEAL_SOURCES = ['constructor', 'PBN deal text', 'JSON card lists', 'binary vectors']
+
+
+def deal_object(owner):
+    """The Hands object a board is played on comes from the constructor or - one deal in four, chosen by the deal itself - from
+    one of the library's decoders (a board file, a log, a vector): a deal is a deal wherever it came from."""
+    from bridge_env import Hands
+    from vf.model import pbn as MP
+    hs = hands_of(owner)
+    k = (sum(hs[0]) + 5 * sum(hs[1][:3])) % 12
+    if k == 1:
+        return Hands.convert_pbn(MP.deal_text(hs, sum(hs[2][:2]) % 4)), 1
+    if k == 2:
+        from bridge_env.data_handler.json_handler.parser import hands_parser
+        return hands_parser({A.SEATS[s]: fmt_cards(hs[s]) for s in range(4)}), 2
+    if k == 3:
+        return Hands.convert_binary({be.SEAT[s]: tuple(1 if c in hs[s] else 0 for c in range(52)) for s in range(4)}), 3
+    return be.hands_from_owner(owner), 0
+
+
 class Board:
     """A board in play: the full-information game, optionally four observers, and the model."""
 
@@ -141,7 +161,8 @@ class Board:
         self.contract = be.contract_of(bid, dbl, vul, decl)
         self.m = P.Play(decl, self.strain)
         self.hands = [set(h) for h in hands_of(owner)]       # model hands
-        self.env = PlayingPhaseWithHands(self.contract, be.hands_from_owner(owner))
+        deal, self.deal_source = deal_object(owner)
+        self.env = PlayingPhaseWithHands(self.contract, deal)
         self.obs = None
         if observers:
             self.obs = [ObservedPlayingPhase(self.contract, be.SEAT[o], {be.CARD[c] for c in self.hands[o]})
@@ -153,6 +174,8 @@ class Board:
         c = {'contract': A.call_name(bid) + ('', 'X', 'XX')[dbl], 'declarer': A.SEATS[decl], 'vul': vul,
              'deal': {A.SEATS[s]: fmt_cards(hands_of(self.owner)[s]) for s in range(4)},
              'played': fmt_cards(self.cards)}
+        if self.deal_source:
+            c['deal_object_from'] = DEAL_SOURCES[self.deal_source]
         if extra:
             c.update(extra)
         return c
